@@ -695,10 +695,11 @@ def summaries(project, func, inline=True, pure=(), select=None, unroll=False):
     return paths
 
 
-def block_summaries(project, func, stmts, pure=(), env=None):
+def block_summaries(project, func, stmts, pure=(), env=None, ncall0=0):
     """paths through a statement list (e.g. one iteration of a loop body); `exit` tells how each path leaves it"""
     node = ast.FunctionDef(name='_block', args=None, body=list(stmts), decorator_list=[])
     sp = SymPaths(project, func, node, pure=pure)
+    sp.ncall = ncall0
     done = []
     first = Path(env=dict(env or {}))
     for q in sp.block(node.body, [first], done):
